@@ -200,7 +200,15 @@ def compare(rec, name, kind, a, b, parents, tol):
     elif kind == "node":
         a = _norm(a)
         b = _norm(b)
-        rec.close(b, a[parents], name, rtol=tol, atol=tol * 1e-3)
+        # entries are compared relative to the largest entry of the vector:
+        # measures obtained from a matrix inverse (random-walk betweenness)
+        # carry rounding noise proportional to it, and weights of any
+        # magnitude (1e-6 .. 1e6) are generated
+        with np.errstate(invalid="ignore"):
+            fin = np.abs(np.concatenate([a[np.isfinite(a)], b[np.isfinite(b)],
+                                         [1.0]]))
+        s_ = float(fin.max())
+        rec.close(b / s_, a[parents] / s_, name, rtol=tol, atol=tol * 1e-3)
     elif kind == "pair":
         a = _norm(a)
         b = _norm(b)
@@ -430,7 +438,7 @@ def network_cases(draw, n_min=6, n_max=14):
     splits = [[draw(st.integers(0, 63)),
                draw(st.sampled_from([0.125, 0.25, 0.5, 0.75, 0.875, 0.3, 0.9,
                                      0.01]))] for _ in range(k)]
-    return {"g": g, "w": draw(G.node_weights(n)),
+    return {"g": g, "w": draw(G.node_weights_wide(n)),
             "W": draw(st.one_of(st.none(), G.link_attr(n, directed))),
             "splits": splits, "heavy": draw(st.integers(0, 2)) == 0}
 
@@ -444,7 +452,7 @@ def interacting_cases(draw, n_min=4, n_max=14):
                draw(st.sampled_from([0.125, 0.25, 0.5, 0.75, 0.875, 0.3]))]
               for _ in range(k)]
     side = draw(st.lists(st.integers(0, 1), min_size=n, max_size=n))
-    return {"g": g, "w": draw(G.node_weights(n)), "W": None,
+    return {"g": g, "w": draw(G.node_weights_wide(n)), "W": None,
             "splits": splits, "side": side, "rev": draw(st.booleans())}
 
 
